@@ -11,6 +11,7 @@ import (
 	"encoding/hex"
 	"fmt"
 	"math/big"
+	"os"
 	"sort"
 	"strings"
 	"testing"
@@ -21,8 +22,10 @@ import (
 	tmproto "github.com/cometbft/cometbft/proto/tendermint/types"
 	codectypes "github.com/cosmos/cosmos-sdk/codec/types"
 	sdk "github.com/cosmos/cosmos-sdk/types"
+	authtypes "github.com/cosmos/cosmos-sdk/x/auth/types"
 	vestingtypes "github.com/cosmos/cosmos-sdk/x/auth/vesting/types"
 	banktypes "github.com/cosmos/cosmos-sdk/x/bank/types"
+	govtypes "github.com/cosmos/cosmos-sdk/x/gov/types"
 	"github.com/cosmos/gogoproto/proto"
 	"github.com/ethereum/go-ethereum/common"
 	ethtypes "github.com/ethereum/go-ethereum/core/types"
@@ -32,6 +35,7 @@ import (
 	evertypes "github.com/EscanBE/evermint/v12/types"
 	cpctypes "github.com/EscanBE/evermint/v12/x/cpc/types"
 	evmtypes "github.com/EscanBE/evermint/v12/x/evm/types"
+	feemarkettypes "github.com/EscanBE/evermint/v12/x/feemarket/types"
 	vauthtypes "github.com/EscanBE/evermint/v12/x/vauth/types"
 
 	. "verifharness/hx"
@@ -495,7 +499,7 @@ func TestDriverBytes(t *testing.T) {
 			"PrepareProposal, ProcessProposal and FinalizeBlock; an adversarial Cosmos-lane or Ethereum-lane transaction through CheckTx and FinalizeBlock; "+
 			"a custom-precompile call with call data of every length 0..40; an ABCI query; a block under generated consensus max_gas; "+
 			"non-trivial = the input got past the decoder, or hit a panic site, or is a query/precompile/end-of-block case")
-	cases := NewCases(dir, "From Evm Require Import BaseFee TxPipe Total CorrTotal.", "total_mismatches")
+	cases := NewCases(dir, "From Evm Require Import BaseFee TxPipe Total TraceCfg CorrTotal.", "total_mismatches")
 	w := newWorld(t, side)
 	c := w.c
 	decoder := c.S.EncodingConfig.TxConfig.TxDecoder()
@@ -760,6 +764,63 @@ func TestDriverBytes(t *testing.T) {
 		}
 	}
 
+	// ---- 4b. trace / call queries whose handler starts goroutines, in a child process (queryprobe_test.go): the request
+	//          fields as a product of adversarial values; the death of the process is the observation
+	if !w.halted && os.Getenv("VERIF_BYTES_NO_QPROBE") == "" {
+		qr := runQueryProbeChild(t, dir)
+		seen := map[int]bool{}
+		emit := func(q qresult, survived bool) {
+			seen[q.Idx] = true
+			side.Count(fmt.Sprintf("qprobe:%s:%s:class=%d:survived=%v", q.Entry, q.Class, q.QClass, survived))
+			if q.Model {
+				cases.Add(fmt.Sprintf("(TTrace %s %s %s %s %s %s)", CqBool(q.Entry == "TraceBlock"), CqBool(q.LimNeg),
+					map[string]string{"none": "ToNone", "garbage": "ToGarbage", "elapsed": "ToElapsed", "future": "ToFuture"}[q.Timeout],
+					map[string]string{"default": "TrDefault", "native": "TrNative", "js": "TrJs", "invalid": "TrInvalid"}[q.Tracer],
+					CqZi(q.QClass), CqBool(survived)))
+				side.Case(idx, fmt.Sprintf("qprobe:%s:%s:%s", q.Entry, q.Class, q.Desc), true, q)
+				idx++
+			}
+			if q.QClass == 4 {
+				side.Hit("C20/bytes/Query/escaped-panic", "a panic escaped BaseApp.Query on the request goroutine: "+q.Log, q)
+			}
+		}
+		for _, q := range qr.Results {
+			if qr.Died && qr.Last != nil && q.Idx == qr.Last.Idx {
+				continue // reported below as the probe the process died on
+			}
+			emit(q, true)
+		}
+		side.Extra["query_probes"] = len(qr.Results)
+		side.Extra["query_probe_child_died"] = qr.Died
+		if qr.Died {
+			last := qresult{QClass: 1}
+			entry, class := "unknown", "unknown"
+			if qr.Last != nil {
+				last.qprobe = *qr.Last
+				entry, class = qr.Last.Entry, qr.Last.Class
+				for _, q := range qr.Results {
+					if q.Idx == qr.Last.Idx {
+						last.QClass = q.QClass
+					}
+				}
+			}
+			if !seen[last.Idx] {
+				emit(last, false)
+			}
+			if qr.Hung {
+				side.Hit("C20/bytes/query-hung/"+entry+"/"+class,
+					"a query neither succeeded nor returned an error within its deadline (the handler loops or blocks forever; the request goroutine and a core are gone)",
+					map[string]interface{}{"probe": last, "stack": crashExcerpt(qr.Output, 2500)})
+			} else {
+				side.Hit("C20/bytes/process-died/"+entry+"/"+class,
+					"the node process died while (or right after) answering a query: a panic in a goroutine started by the handler is recovered by nothing",
+					map[string]interface{}{"probe": last, "stderr": crashExcerpt(qr.Output, 2500)})
+			}
+		} else if qr.FinalCls != 0 {
+			side.Hit("C20/bytes/Query/node-degraded-after-probes", fmt.Sprintf("the default trace after all probes was answered with class %d", qr.FinalCls), nil)
+		}
+	}
+
 	// ---- 5. blocks under generated valid consensus parameters (max_gas), end-of-block totality
 	mgs := []int64{-1, 0, 1, 2, 3, 21000, 100000, 30_000_000, 1<<62 + 1}
 	for i, mg := range mgs {
@@ -810,6 +871,85 @@ func TestDriverBytes(t *testing.T) {
 		cp.Block.MaxGas = -1
 		require.NoError(t, c.App.BaseApp.StoreConsensusParams(c.Ctx(), cp))
 		w.finalize(nil, "empty block, max_gas=-1")
+	}
+
+	// ---- 5c. end-of-block totality over the fee-market parameters: base fees up to 2^255 (and min gas prices up to 2^200)
+	//          set through the real MsgUpdateParams handler with the governance authority, then blocks run on them
+	if !w.halted {
+		orig := c.App.FeeMarketKeeper.GetParams(c.QueryCtx())
+		gov := authtypes.NewModuleAddress(govtypes.ModuleName).String()
+		setFm := func(p feemarkettypes.Params) {
+			_, err := c.App.FeeMarketKeeper.UpdateParams(c.Ctx(), &feemarkettypes.MsgUpdateParams{Authority: gov, Params: p})
+			require.NoError(t, err)
+		}
+		e := func(b, x int64) *big.Int { return new(big.Int).Exp(big.NewInt(b), big.NewInt(x), nil) }
+		fees := []*big.Int{big.NewInt(0), big.NewInt(1), Bsub(Pow2(63), 1), Pow2(63), e(10, 19), Pow2(64), new(big.Int).Mul(big.NewInt(9), e(10, 27)),
+			Bsub(new(big.Int).Mul(Pow2(63), e(10, 9)), 1), new(big.Int).Mul(Pow2(63), e(10, 9)), new(big.Int).Mul(big.NewInt(2), e(10, 28)),
+			Pow2(96), Pow2(127), Pow2(128), Pow2(200), Bsub(Pow2(255), 1), Pow2(255)}
+		r5 := rng.Fork(450000)
+		extra := 4
+		if os.Getenv("VERIF_TIER") == "thorough" {
+			extra = 60
+		}
+		for k := 0; k < extra; k++ {
+			fees = append(fees, r5.BigBits(60+r5.Intn(196)))
+		}
+		for i, bf := range fees {
+			if w.halted {
+				break
+			}
+			p := feemarkettypes.Params{BaseFee: sdkmath.NewIntFromBigInt(bf), MinGasPrice: orig.MinGasPrice}
+			mgpKind := "unchanged"
+			switch i % 5 {
+			case 3:
+				p.MinGasPrice, mgpKind = sdkmath.LegacyNewDecFromBigInt(Pow2(200)), "2^200"
+			case 4:
+				p.MinGasPrice, mgpKind = sdkmath.LegacyNewDecFromBigIntWithPrec(Badd(new(big.Int).Mul(bf, e(10, 18)), 5), 18), "base+fraction"
+			}
+			setFm(p)
+			desc := map[string]interface{}{"base_fee": bf.String(), "min_gas_price": mgpKind}
+			survived := true
+			// three blocks: EndBlock computes the next base fee from this one each time
+			var base0 *big.Int
+			var md0 *big.Int
+			var used0 uint64
+			flags0 := []string{}
+			for b := 0; b < 3 && survived; b++ {
+				q := c.QueryCtx()
+				base, fmp := c.BaseFee(q), c.App.FeeMarketKeeper.GetParams(q)
+				var batch [][]byte
+				if b == 1 {
+					batch = [][]byte{validE, validC, rbytes(r5.Fork(uint64(i)), 30)}
+				}
+				res := w.finalize(batch, desc)
+				if res == nil {
+					survived = false
+				}
+				var used uint64
+				flags := []string{}
+				for _, x := range res {
+					used += uint64(x.GasUsed)
+					hasEth := false
+					for _, ev := range x.Events {
+						if ev.Type == evmtypes.EventTypeEthereumTx {
+							hasEth = true
+						}
+					}
+					flags = append(flags, CqBool(hasEth))
+				}
+				if b == 0 || !survived {
+					base0, md0, used0, flags0 = base, fmp.MinGasPrice.BigInt(), used, flags
+				}
+			}
+			cases.Add(fmt.Sprintf("(TEnd %s %s %s (-1) %s %s)", CqList(flags0), CqZ(base0), CqZu(used0), CqZ(md0), CqBool(survived)))
+			side.Count(fmt.Sprintf("endblock_basefee:bits=%d:mgp=%s:survived=%v", bf.BitLen(), mgpKind, survived))
+			side.Case(idx, fmt.Sprintf("endblock-basefee:%s:%s", bf, mgpKind), true, desc)
+			idx++
+		}
+		if !w.halted {
+			setFm(orig)
+			w.finalize(nil, "empty block after restoring the fee-market parameters")
+		}
 	}
 
 	// ---- 5b. liveness after adversarial-but-valid EVM transactions aimed at module accounts: zero-value call (touches an
